@@ -187,6 +187,10 @@ def run(chk):
         if res[0].shape != res[1].shape or np.abs(res[0] - res[1]).max() > 2e3 * eps:
             chk.fail("unique-differs", f"{method}: unique=True differs from unique=False by {np.abs(res[0] - res[1]).max():.2e}", info)
 
+    # ---- (d) the representatives handed to influence_matrix by the library's own glue (exact) --------------------
+    c02.glue_check(chk, 18 if thorough else 9, force_unique=True,
+                   spectra=[[0.5, 0.5, -1.0], [1.0, 1.0, 2.0], [0.0, 0.0, 1.0, 3.0], [1.0, 2.0, 2.0], [0.0, 1.0]])
+
     return chk.finish(
         level="proof",
         trusted=["models: Model/Degeneracy.v, Model/Shapes.v (exponent), Model/PathSum.v; maps compared as partitions + first representatives",
